@@ -131,11 +131,19 @@ def session(exe, text, edits, seed, per_method=3, timeout=20.0, raw_edits=()):
         s.open(URI, text)
         cur = text
 
+        counter = [100]
+
+        def next_rid():
+            # request ids from all over the i32 range: positive, negative, near the extremes (all distinct)
+            counter[0] += 1
+            k = counter[0]
+            return [k, -k, 2147483647 - k, -2147483648 + k][k % 4]
+
         def fire():
             ids = []
             for m in METHODS:
                 for (l, c) in positions(rng, cur, per_method)[: (1 if m in ("foldingRange", "formatting", "semanticTokens/full") else 99)]:
-                    rid = s.request_async("textDocument/" + m, params_for(m, l, c))
+                    rid = s.request_async("textDocument/" + m, params_for(m, l, c), rid=next_rid())
                     ids.append((rid, m, l, c))
             return ids
 
